@@ -24,6 +24,9 @@ EXPLANATION = (
     'header capture in the plane reader (FILE vs WINDOW frame polynomials). C04.5 file header: 3600 bytes are read '
     'from offset 0 of the source into [DISK_BLOCK_BYTES, +3600) and split by the reader at +3200. C04.6 array count, '
     'table and arrays move together (C03.6).')
+EXPLANATION += (
+    " ADDED: C04.7 (heuristic detection, abstract interpretation over the five (first trace, last trace) classes of a header field: constant zero, constant non-zero, zero->non-zero, non-zero->zero, two different non-zero values): the helper lists of HeaderwordInfo are evaluated as predicates; the varying base of the stored-array list and of the duplicate finder is exactly the three varying classes, the table constants exactly the constant non-zero class. C04.8: both converters write the footer at the reader's stride and in table order (rule of C03.5). C04.4 also covers the reduced-I/O reader: it is addressed by window-local line ordinals, so every path on which it survives must establish source line count == window line count on both axes; the plane read on each side of `i < planes_to_read` is ordinal i / the last real ordinal."
+)
 ASSUMPTIONS = [
     'segyio returns what the file holds; segyio.TraceField enumerates the 89 SEG-Y trace header fields in ascending byte order',
     'the reader assigns footer offsets in the order of the header-word table, which lists the fields in ascending order',
